@@ -61,7 +61,7 @@ def cases(rng, tier):
         if a is not None and b is not None and a > b and rng.random() < 0.7:
             a, b = b, a
         out.append({'kind': 'limit_df', 'center': rng.choice(['peak', 'trough']), 'rows': rows, 'fs': fs, 'start': a, 'stop': b,
-                    'reset': rng.random() < 0.6})
+                    'reset': rng.random() < 0.6, 'index': rng.choice(['default', 'default', 'offset', 'reversed'])})
     m = 400 if tier == 'quick' else 4000
     for _ in range(m):
         fs = rng.choice([1.0, 100.0, 250.0, 512.0, 1000.0, 30.0])
@@ -105,7 +105,12 @@ def _df(c):
     d['volt_amp'] = np.arange(n, dtype=float) * 0.25 + 1
     d['is_burst'] = np.array([i % 2 == 0 for i in range(n)], dtype=bool)
     d['rowid'] = np.arange(n, dtype=int)
-    return pd.DataFrame(d)
+    df = pd.DataFrame(d)
+    if c.get('index') == 'offset':
+        df.index = np.arange(n) + 11
+    elif c.get('index') == 'reversed':
+        df.index = np.arange(n)[::-1]
+    return df
 
 
 def run_impl(c):
